@@ -70,10 +70,11 @@ claim("C03",
       "OneRowPerSample / FaultFreeIsOk; the harness builds every configuration over seeded random histories (magnitudes over six "
       "decades, acc/mag >= 1 degree apart) and over exact canonical poses (level at 12 headings, inverted, each axis vertical, two "
       "measurement conventions) at several lengths and validates every row (count, real dtype, finite, unit / proper rotation / "
-      "finite angles); observed runs are validated by TraceLifecycle.",
+      "finite angles); also with the magnetic reference the data were made from (exact zeros in the heading formulas), through the one-sample "
+      "constructor and estimate() row by row, and over one long history (12 000 / 50 000 rows) per recursive class; observed runs are validated by TraceLifecycle.",
       "TLA+ FilterLifecycle catalogue + TLC + replay over enumerated configurations, trace validation", "DESIGN.md section 5, C03")
 claim("C07",
-      "Vectorised.tla fixes the catalogue of 73 twin pairs (QuaternionArray vs Quaternion conversions, 9 matrix->quaternion "
+      "Vectorised.tla fixes the catalogue of 79 twin pairs (QuaternionArray vs Quaternion conversions, 9 matrix->quaternion "
       "variants, N-by-3-by-3 vs 3-by-3 functions, batch vs single metrics, N-sample constructors vs estimate() of every single-frame "
       "estimator and option) and the arrangements of six row classes (generic, half-turn, near-half-turn, near-identity, identity) "
       "over N in {1,2,3,4,5} (3 and 4 make the arrays square: shape-based dispatch is ambiguous there), with the invariant RowLocal; TLC enumerates all (pair, arrangement) cases; the harness concretises "
@@ -96,7 +97,8 @@ claim("C13",
       "what the configuration can see, never Poisoned; close again Recover slots after the last visible fault; a rejected run "
       "stops at a visible fault); TLC explores it with every outcome choice; the harness stretches each slot to 25 samples of a "
       "motionless sensor, runs 15 recursive filter/architecture configurations on the faulted history and on the same history "
-      "without dropout, abstracts each slot to (outcome, close) and TLC validates the traces (TraceDropout).",
+      "without dropout, abstracts each slot to (outcome, close, held) and TLC validates the traces (TraceDropout); held = a run that was close "
+      "when a visible fault begins is, at the end of the faulted slot, where dead reckoning from its last estimate puts it ('skips its correction').",
       "TLA+ DropoutMonitor + TLC fault enumeration + trace validation of real runs", "DESIGN.md section 5, C13")
 claim("C05",
       "ConvergenceMonitor.tla is the property's safety automaton (within Tol from the budget on, absorbing; final error not above "
